@@ -163,6 +163,10 @@ func (x *Exec) havocLoop(s *State, f *Frame, lp *Loop, phis []*ssa.Phi) {
 			switch o := old.(type) {
 			case *Scalar:
 				s.Ghost[g] = S(x.Ctx.Fresh("ghost."+g, o.T.Sort))
+			case *PtrVal:
+				if o.Cell == nil {
+					s.Ghost[g] = &PtrVal{Ref: x.Ctx.Fresh("ghost."+g, SInt), Base: o.Base, Typ: o.Typ}
+				}
 			case *SliceVal:
 				ln := x.Ctx.Fresh("ghost."+g+"@len", SInt)
 				s.Assume(Ge(ln, IntLit(0)))
